@@ -2,10 +2,11 @@
 # usage: selftest.sh [tier]   (default quick)
 # For every seeded change under /verif/seeded/<name>/ (patch.diff + meta.json naming the property and
 # the checks expected to catch it), applies it to /repo, runs the listed checks, restores /repo, and
-# reports caught / MISSED.  Evidence files are restored afterwards (they must describe the unchanged tree).
+# reports caught / MISSED.  try_patch.sh works on a scratch worktree and a scratch copy of the harness,
+# so neither /repo nor /verif/evidence is touched.
 tier=${1:-quick}
 cd /verif || exit 2
-cp -r evidence /tmp/evidence.selftest.$$
+:
 fail=0
 for d in seeded/*/; do
   name=$(basename "$d")
@@ -23,5 +24,5 @@ for d in seeded/*/; do
     fi
   done
 done
-rm -rf evidence; mv /tmp/evidence.selftest.$$ evidence
+:
 exit $fail
